@@ -41,7 +41,7 @@ ASSUMPTIONS = [
 
 NFS = progs.N_ALL_FS
 SCHEMA = {
-    "m": [("api", 8), ("fs", NFS)],
+    "m": [("api", 10), ("fs", NFS)],
     "a": [("style", 6), ("typed", 3), ("exit", 11), ("sf", NFS), ("ef", NFS), ("xf", 2)],
 }
 # ok, ValueError, StrRaises, Custom, BadExtract, BadExtract propagating, KeyboardInterrupt, ValueError one level up
